@@ -455,6 +455,9 @@ def c19_generate(seed, tier):
     share = []
     base = configs.draw_spec(cfgr, {"benchmark": 0.25, "generated": 0.35,
                                     "yaml": 0.4})
+    if family in ("same_object", "same_spec") and cfgr.random() < 0.4:
+        base = configs.family_spec(cfgr, cfgr.choice(
+            ["deny_heavy", "pivot_traffic", "many_services"]))
     for k in range(n_env):
         if family == "same_object":
             specs.append(base)
